@@ -519,13 +519,23 @@ func (w *world) rtspEvent(c *conn, m int64, path string, cred Val) Val {
 }
 
 // ---------------------------------------------------------------- websocket entry points
-func (w *world) dialWS(path, tok, proto string) (*websocket.Conn, int) {
+// hdrsOf: request headers of the client's choosing, keys written on the wire exactly as given
+func hdrsOf(v Val) http.Header {
+	h := http.Header{}
+	for _, kv := range v.List() {
+		k := kv.At(0).Str()
+		h[k] = append(h[k], kv.At(1).Str())
+	}
+	return h
+}
+
+func (w *world) dialWS(path, tok, proto string, hdr http.Header) (*websocket.Conn, int) {
 	d := websocket.Dialer{HandshakeTimeout: 5 * time.Second}
 	if proto != "" {
 		d.Subprotocols = []string{proto}
 	}
 	u := "ws" + strings.TrimPrefix(w.url(path, tok), "http")
-	ws, resp, err := d.Dial(u, nil)
+	ws, resp, err := d.Dial(u, hdr)
 	if err != nil {
 		if resp != nil {
 			return nil, resp.StatusCode
@@ -686,9 +696,10 @@ func runCase(c Val) Val {
 			o = w.rtspEvent(cn, e.At(2).Int(), e.At(3).Str(), e.At(4))
 		case 7: // websocket upgrade: kind 0 rtsp, 1 control, 2 data, 3 flv
 			kind, path, tok := e.At(1).Int(), e.At(2).Str(), w.token(e.At(3))
+			hdr := hdrsOf(e.At(5))
 			switch kind {
 			case 0:
-				ws, code := w.dialWS("/streams"+path, tok, "rtsp")
+				ws, code := w.dialWS("/streams"+path, tok, "rtsp", hdr)
 				cn := &conn{kind: -1}
 				if ws != nil {
 					cn = &conn{kind: 1, ws: ws, local: ws.LocalAddr().String()}
@@ -701,7 +712,7 @@ func runCase(c Val) Val {
 				}
 				o = L(I(int64(code)), I(0), I(0), I(id))
 			case 1:
-				ws, code := w.dialWS("/streams"+path, tok, "control")
+				ws, code := w.dialWS("/streams"+path, tok, "control", hdr)
 				cn := &conn{kind: -1}
 				init := int64(0)
 				if ws != nil {
@@ -719,7 +730,7 @@ func runCase(c Val) Val {
 				}
 				o = L(I(int64(code)), I(init), I(0), I(id))
 			case 2:
-				ws, code := w.dialWS("/streams"+path, tok, "data")
+				ws, code := w.dialWS("/streams"+path, tok, "data", hdr)
 				join, mediaSeen := int64(0), false
 				if ws != nil {
 					channel := "999999999999"
@@ -736,7 +747,7 @@ func runCase(c Val) Val {
 						// the server answers INIT before it registers the session: a join that overtakes the
 						// registration is told 404.  Ask once more after a pause; a refusal stays a refusal.
 						time.Sleep(25 * time.Millisecond)
-						if ws2, code2 := w.dialWS("/streams"+path, tok, "data"); ws2 != nil && code2 == 101 {
+						if ws2, code2 := w.dialWS("/streams"+path, tok, "data", hdr); ws2 != nil && code2 == 101 {
 							if wc2, _, _, err2 := wspExchange(ws2, "WSP/1.1 JOIN\r\nchannel: "+channel+"\r\nseq: 1\r\n\r\n"); err2 == nil {
 								ws, wc = ws2, wc2
 							}
@@ -756,7 +767,7 @@ func runCase(c Val) Val {
 				}
 				o = L(I(int64(code)), I(join), Bo(mediaSeen), I(0))
 			default:
-				ws, code := w.dialWS("/streams"+path+".flv", tok, "")
+				ws, code := w.dialWS("/streams"+path+".flv", tok, "", hdr)
 				mediaSeen := false
 				if ws != nil {
 					d := pump(ws)
@@ -830,7 +841,7 @@ func runCase(c Val) Val {
 			default:
 				u = w.url("/streams"+path+"/"+strconv.FormatInt(w.segmentNo(path, e.At(4).Int()), 10)+".ts", tok)
 			}
-			o = w.httpGet(u, kind)
+			o = w.httpGet(u, kind, hdrsOf(e.At(5)))
 		case 11: // API
 			o = w.api(e)
 		default:
@@ -855,7 +866,7 @@ func (w *world) feedFrames() {
 
 var segLine = regexp.MustCompile(`/(\d+)\.ts`)
 
-func (w *world) httpGet(u string, kind int64) Val {
+func (w *world) httpGet(u string, kind int64, hdr http.Header) Val {
 	type result struct {
 		resp *http.Response
 		err  error
@@ -863,6 +874,9 @@ func (w *world) httpGet(u string, kind int64) Val {
 	ch := make(chan result, 1)
 	go func() {
 		req, _ := http.NewRequest("GET", u, nil)
+		for k, vs := range hdr {
+			req.Header[k] = vs
+		}
 		resp, err := httpClient.Do(req)
 		ch <- result{resp, err}
 	}()
@@ -963,6 +977,9 @@ func (w *world) api(e Val) Val {
 		}
 	}
 	req, _ := http.NewRequest(method, u, body)
+	for k, vs := range hdrsOf(e.At(6)) {
+		req.Header[k] = vs
+	}
 	resp, err := httpClient.Do(req)
 	if err != nil {
 		return L(I(-1))
